@@ -32,6 +32,7 @@ type parser struct {
 	N      int
 	mask   []string
 	Depth  int
+	nest   int // nesting of doExpression and getType calls
 }
 
 func symAtPos(pos scanner.Position, symbol string) *token {
@@ -98,10 +99,15 @@ func (p *parser) Expression(rbp int, mask ...string) *token {
 }
 
 func (p *parser) doExpression(rbp int) *token {
+	// prefix operators recurse through here without passing Expression: the nesting bound covers them too
+	if p.nest++; p.nest > maxDepth {
+		panicf("nested too deeply")
+	}
 	t := p.Token
 	p.Next()
 	left := getSymbol(t).Nud(p, t)
 	if left == nil { // empty statement
+		p.nest--
 		return nil
 	}
 	for rbp < getSymbol(p.Token).Lbp && !slices.Contains(p.mask, p.Token.Symbol) {
@@ -109,5 +115,6 @@ func (p *parser) doExpression(rbp int) *token {
 		p.Next()
 		left = getSymbol(t).Led(p, t, left)
 	}
+	p.nest--
 	return left
 }
